@@ -472,10 +472,38 @@ func reuseCheck(t byte, cur message.Message, wire []byte, detail map[string]inte
 // modifyAfterDecode decodes the packet once more, changes it through one or two setters and compares
 // the encoding with the reference encoding of the fields the message then reports.
 func modifyAfterDecode(t byte, wire []byte, detail map[string]interface{}) {
-	m, _, err, pan, _, _ := libDecode(t, append(make([]byte, 0, len(wire)), wire...))
+	modifyAfterDecodeInto(t, wire, nil, detail)
+	if prev := lastAccepted[t]; prev != nil {
+		// the same on a message object that held another packet of the type before
+		modifyAfterDecodeInto(t, wire, prev, detail)
+	}
+}
+
+var modifySeq int
+
+func modifyAfterDecodeInto(t byte, wire, prev []byte, detail map[string]interface{}) {
+	first := wire
+	if prev != nil {
+		first = prev
+	}
+	m, _, err, pan, _, _ := libDecode(t, append(make([]byte, 0, len(first)), first...))
 	if pan != nil || err != nil {
 		return
 	}
+	if prev != nil {
+		func() {
+			defer func() {
+				if r := recover(); r != nil {
+					pan = r
+				}
+			}()
+			_, err = m.Decode(append(make([]byte, 0, len(wire)), wire...))
+		}()
+		if pan != nil || err != nil {
+			return // reported by reuseCheck
+		}
+	}
+	modifySeq++
 	what := ""
 	func() {
 		defer func() {
@@ -494,12 +522,30 @@ func modifyAfterDecode(t byte, wire []byte, detail map[string]interface{}) {
 			}
 			what = "SetKeepAlive/SetClientID/SetCleanSession"
 		case *message.PublishMessage:
-			if len(wire)%2 == 0 {
+			switch k := modifySeq % 6; {
+			case k == 0:
 				mm.SetPayload([]byte("other payload"))
-			} else {
+				what = "SetPayload"
+			case k == 1:
 				mm.SetTopic([]byte("other/topic"))
+				what = "SetTopic"
+			case k == 2:
+				mm.SetRetain(!mm.Retain())
+				what = "SetRetain"
+			case k == 3 && mm.QoS() > 0:
+				mm.SetDup(!mm.Dup())
+				what = "SetDup"
+			case k == 4 && mm.QoS() > 0:
+				mm.SetPacketID(mm.PacketID()%65535 + 1)
+				what = "SetPacketID"
+			default:
+				q := (mm.QoS() + 1 + byte(modifySeq/6%2)) % 3
+				mm.SetQoS(q)
+				if q == 0 {
+					mm.SetDup(false)
+				}
+				what = fmt.Sprintf("SetQoS(%d)", q)
 			}
-			what = "SetPayload/SetTopic"
 		case *message.SubscribeMessage:
 			if ts := mm.Topics(); len(ts) > 0 && len(wire)%3 == 0 {
 				// only the requested QoS of a filter the packet carried is changed
@@ -533,8 +579,13 @@ func modifyAfterDecode(t byte, wire []byte, detail map[string]interface{}) {
 		out.Violation("c03:modify-panic:"+tn, fmt.Sprint(pan), detail)
 		return
 	}
-	want := rc.Encode(libFields(m)) // no merging of duplicate filters here: a decoded packet keeps what it carried
 	b, ln, n, err, pan := libEncode(m)
+	// the fields as the message reports them after encoding (a request identifier the library had to
+	// assign is part of them); no merging of duplicate filters: a decoded packet keeps what it carried
+	want := rc.Encode(libFields(m))
+	if prev != nil {
+		what += " on a message object that held " + hex(prev) + " before"
+	}
 	if pan != nil || err != nil || ln != n || !bytes.Equal(b[:max(n, 0)], want) {
 		out.Violation("c03:modify-after-decode:"+tn, fmt.Sprintf("decoded, changed through %s, encoded: Len()=%d wrote %d err=%v panic=%v; bytes %s, MQTT encoding of its fields %s", what, ln, n, err, pan, hex(b[:max(n, 0)]), hex(want)), detail)
 		return
